@@ -41,7 +41,7 @@ ImplOf(e) ==
     [] e.a = "SetHW" -> DoSetHW(e.args.h)
     [] e.a = "SetHW2" -> DoSetHW2(e.args.h1, e.args.h2)
     [] e.a = "TogBegin" -> TogStore(e.args.b)
-    [] e.a = "NewReader" -> DoNewReader(e.args.r, e.args.s)
+    [] e.a = "NewReader" -> DoNewReaderAtomic(e.args.r, e.args.s)    \* lock-step: both steps back to back
     [] e.a = "Step" ->
          (CASE e.args.p = "app" -> AppSplit \/ AppList \/ AppNoSplit \/ AppWrite
             [] e.args.p = "rol" -> RolList
